@@ -7,7 +7,7 @@ import types
 
 TOOL = 4  # a free sys.monitoring tool id
 _mon = sys.monitoring
-_state = {"on": False, "count": {}, "total": 0, "budget": None, "per": None}
+_state = {"on": False, "count": {}, "total": 0, "budget": None, "per": None, "snap": None, "snaps": []}
 
 
 class BudgetExceeded(Exception):
@@ -47,6 +47,15 @@ def _on_jump(code, src, dst):
             if st["per"] and k in st["per"] and c > st["per"][k]:
                 st["on"] = False
                 raise BudgetExceeded(k)
+            if st["snap"] and k in st["snap"] and len(st["snaps"]) < 4000:
+                # growth only (DESIGN 11.6, action-level traces): a projection of the monitored frame's locals at a loop
+                # back-edge, read without touching the source; absent names simply yield no snapshot
+                try:
+                    v = st["snap"][k](sys._getframe(1).f_locals)
+                    if v is not None:
+                        st["snaps"].append(v)
+                except Exception:
+                    pass
     return None
 
 
@@ -92,7 +101,7 @@ def quad(n, c=8):
     return c * n * n + 4000 * n + 200000
 
 
-def call(fn, args, kwargs=None, budget=20000, wall=20, per=None):
+def call(fn, args, kwargs=None, budget=20000, wall=20, per=None, snap=None):
     """Run fn(*args) under the back-edge budget and the watchdog.
     budget: hard stop over ALL back-edges of library code (a hang detector: callers pass a bound that no
             returning execution can reach); per: {code name: limit} hard stops for the loops whose iteration
@@ -107,6 +116,8 @@ def call(fn, args, kwargs=None, budget=20000, wall=20, per=None):
     st["total"] = 0
     st["budget"] = budget
     st["per"] = per
+    st["snap"] = snap
+    st["snaps"] = []
     st["on"] = True
     old = signal.signal(signal.SIGALRM, _alarm)
     oldv = signal.signal(signal.SIGVTALRM, _alarm)
